@@ -239,7 +239,10 @@ func escapeRef(p []byte) []byte {
 
 // buildFrame is the harness's own frame builder (test-side terminal); it is validated against
 // the specification by the trace checks (every frame it builds travels to TLC with its fields).
-func buildFrame(h hdrSpec) []byte {
+func buildFrame(h hdrSpec) []byte { return escapeRef(buildFrameRaw(h)) }
+
+// buildFrameRaw returns header, body and checksum before escaping
+func buildFrameRaw(h hdrSpec) []byte {
 	attr := h.rsv<<15 | h.ver<<14 | h.frag<<13 | h.enc3<<10 | (len(h.body) & 0x3ff)
 	p := []byte{byte(h.id >> 8), byte(h.id), byte(attr >> 8), byte(attr)}
 	if h.ver == 1 {
@@ -251,8 +254,7 @@ func buildFrame(h hdrSpec) []byte {
 		p = append(p, byte(h.total>>8), byte(h.total), byte(h.no>>8), byte(h.no))
 	}
 	p = append(p, h.body...)
-	p = append(p, xorAll(p))
-	return escapeRef(p)
+	return append(p, xorAll(p))
 }
 
 func randPhone(r *rand.Rand, ver int) []byte {
@@ -379,6 +381,19 @@ func init() {
 			h.body = randBody(r, i)
 			f := buildFrame(h)
 			kind := "valid"
+			if r.Intn(6) == 0 && len(h.body) > 0 {
+				// make the checksum 7D by adjusting the last body byte, and send it unescaped (tolerated deviation)
+				raw := buildFrameRaw(h)
+				cs := raw[len(raw)-1]
+				nb := h.body[len(h.body)-1] ^ cs ^ 0x7d
+				if nb != 0x7e && nb != 0x7d {
+					h.body[len(h.body)-1] = nb
+					raw = buildFrameRaw(h)
+					esc := escapeRef(raw[:len(raw)-1])
+					f = append(esc[:len(esc)-1], 0x7d, 0x7e)
+					kind = "raw7d"
+				}
+			}
 			switch r.Intn(8) {
 			case 0: // bit flip
 				k := r.Intn(len(f))
